@@ -361,6 +361,48 @@ def r2_only_added(program, rep):
                    "is left")
 
 
+def r2_new_context(program, rep):
+    """A context made by ``obj(arg=value)`` sets the arguments it was given
+    and no others: arguments in force where the object happens to be CREATED
+    must not be frozen into it (it may be entered somewhere else)."""
+    fn = program.get(CX + ":ContextMixin.get_new_context")
+    T = Terms(fn)
+    if fn.args.kwarg is None:
+        raise AnalysisError("get_new_context no longer takes **kwargs")
+    KW = ("param", fn.args.kwarg.arg)
+    rets = [T.term(r.value) for r in returns_of(fn) if r.value is not None]
+    if len(rets) != 1 or plain(rets[0])[0] != "call" or \
+            plain(rets[0])[1] != ("global", "Context") or \
+            not plain(rets[0])[2]:
+        raise AnalysisError("get_new_context: the Context created was not "
+                            "found in the form analysed")
+    A = rets[0][2][0]
+    pa = plain(A)
+    own = pa == KW or pa == ("call", ("global", "dict"), (KW,), ())
+    if own and A[0] == "new":
+        # a copy: nothing else may be put into it
+        own = not [x for x in method_calls(T, ("update", "setdefault"))
+                   if x[2] == A] and not [x for x in stores(T)
+                                          if x[2] == A]
+    inherited = any(st_[0] in ("call", "callv") and st_[1][0] == "attr" and
+                    st_[1][2] == "get_context_arguments"
+                    for st_ in subterms(pa)) or any(
+        x[2] == A and any(KW == plain(a_) for a_ in x[3])
+        for x in method_calls(T, ("update",)))
+    if not own and not inherited:
+        raise AnalysisError("get_new_context: the arguments given to the "
+                            "new Context are computed in a form that is "
+                            "not analysed")
+    rep.check(own, "C18-R2", qual(fn), "a new context holds exactly the "
+              "arguments it was created with", construct="new context "
+              "arguments %s" % show(pa)[:60], node=fn,
+              fail="the Context made by get_new_context is seeded with "
+                   "more than the arguments given (%s): the arguments in "
+                   "force where it is created are frozen into it and "
+                   "override the enclosing blocks wherever it is later "
+                   "entered" % show(pa)[:80])
+
+
 def r2_pairing(program, rep):
     ex = program.get(CX + ":Context.__exit__")
     inst = qual(ex)
@@ -994,6 +1036,7 @@ def check(program, rep):
     rep.guard("C18-R1", r1_decorator, program, rep)
     rep.guard("C18-R2", r2_pairing, program, rep)
     rep.guard("C18-R2", r2_only_added, program, rep)
+    rep.guard("C18-R2", r2_new_context, program, rep)
     rep.guard("C18-R3", r3_roles, program, rep)
     rep.guard("C18-R4", r4_satisfiable, program, rep)
     rep.guard("C18-R5", r5_connection, program, rep)
